@@ -2,7 +2,7 @@
 """Regenerates MANIFEST.json from the table below (kept in one place so it stays valid)."""
 import json
 
-REPO_FIXES = ["7e35490", "ecea711", "fc01ecc", "cd27f47", "9ed931a", "72b95c5", "7d2242b", "bc9cd84"]
+REPO_FIXES = ["7e35490", "ecea711", "fc01ecc", "cd27f47", "463d510", "2d5f2e1", "19f78b7", "505b133", "a8ceba4", "52f9b16", "5232db2", "9ed931a", "72b95c5", "7d2242b", "bc9cd84"]
 TECH = "bounded symbolic execution of the real Python code on z3 real proxies (own engine vf.symx) + SMT (z3; UF abstraction with exact NRA refinement); counterexamples replayed concretely"
 CLAIMED = {
     "C01": ("unit level: every _solv_outp_volt/_solv_inp_curr of the 11 kinds (const / 1-D / 2-D tables, phase modes, off flags, PMux k<=3) "
@@ -48,6 +48,16 @@ CLAIMED = {
     "C13": ("real _Component.from_file / LinReg.from_file on proxies through an in-memory TOML dict: loaded == constructed for every enumerated subset of optional "
             "keys, const/1-D/2-D forms, symbolic limits; KeyError / ValueError / integer panels.",
             "Floats as reals; toml contract; optional-key subsets none/all/single (quick), all (thorough).", "4/C13"),
+    "C14": ("real add_source/add_comp/change_comp/del_comp on 11 concrete base histories followed by 1 (quick) / 2 (thorough) SYMBOLIC calls (operation, kind, "
+            "del_childs and every name-valued argument are solver-chosen indices into existing names, rails and fresh strings); the well-formedness invariant is "
+            "evaluated on the real graph/registries after every call, accepted or rejected.",
+            "Solver-driven exhaustive walk over a bounded argument space (not an inductive proof - see DESIGN 4/C14); numeric parameters concrete.", "4/C14"),
+    "C15": ("same machinery over all six editing/configuration calls: on every path where the symbolic call raises, graph + registries + component parameters "
+            "(and, in the thorough tier, every report) are compared before/after, and a follow-up call is compared with a twin that never saw the rejected call.",
+            "Bounded argument space; quick tier recomputes reports only when the state snapshot differs.", "4/C15"),
+    "C16": ("base histories (deletions with/without children, rename, replacement, index reuse, edits above/below a PMux, phases) + 0/1 symbolic accepted call: "
+            "every report runs, lists exactly the live components and equals, row by row by name, a from-scratch build of the harness's own model of the final "
+            "structure in 3 insertion orders.", "Bounded histories; numeric parameters concrete; make_diag not covered.", "4/C16"),
     "C17": ("real batt_life() with nondeterministic callbacks raising at every call index <= K and injected solver failures: vo/rs restored and snapshot unchanged on "
             "every returning or raising path; interleavings of the real analyses leave the snapshot and later results unchanged.",
             "Floats as reals; inner solves abstracted to exact fixed points; plot_interp/make_diag/make_hdiag not covered.", "4/C17"),
